@@ -263,10 +263,10 @@ C13(pre, ev, post, aux) ==
            \A d \in Procs : (IsFailOf(ev, d) /\ pre.dev[d].inp # 0) => SdOf(ev, d) = Triple("down", d, TRUE, pre.dev[d].inp))
     \cup C("C13.CallbacksOncePerOccurrenceInOrder",
            \A d \in Procs :
-              /\ (~pre.dev[d].down /\ post.dev[d].down) =>
-                    SdOf(ev, d) = Triple("down", d, IsFailOf(ev, d), IF IsFailOf(ev, d) THEN pre.dev[d].inp ELSE 0)
+              /\ IsFailOf(ev, d) => SdOf(ev, d) = Triple("down", d, TRUE, pre.dev[d].inp)
+              /\ (~IsFailOf(ev, d) /\ ~pre.dev[d].down /\ post.dev[d].down) => SdOf(ev, d) = Triple("down", d, FALSE, 0)
               /\ (pre.dev[d].down /\ ~post.dev[d].down) => SdOf(ev, d) = Triple("up", d, FALSE, 0)
-              /\ (pre.dev[d].down = post.dev[d].down /\ ~(IsFailOf(ev, d) /\ pre.dev[d].inp # 0)) => SdOf(ev, d) = <<>>)
+              /\ (~IsFailOf(ev, d) /\ pre.dev[d].down = post.dev[d].down) => SdOf(ev, d) = <<>>)
     \cup C("C13.RepeatedCallsAreNoOps",
            \A d \in Procs :
               /\ (ScriptOn(ev, "shutdown", d) /\ pre.dev[d].down) => Untimed(post.dev[d]) = Untimed(pre.dev[d])
